@@ -1,9 +1,10 @@
 #!/bin/bash
-# usage: sweep.sh <seed> [tier]   - run every registered check once; one summary line per check; evidence/replays go to a scratch dir
+# usage: [SWEEP_PROPS='C01 C02'] sweep.sh <seed> [tier]   - run every registered check once; one summary line per check; evidence/replays go to a scratch dir
 SEED=${1:-1}; TIER=${2:-quick}
 cd "$(dirname "$0")/.."
 OUT=$(mktemp -d /tmp/verif_sweep_XXXX)
-for id in $(/venv/bin/python -c "import json; print(' '.join(c['property_id'] for c in json.load(open('MANIFEST.json'))['checks']))"); do
+IDS=${SWEEP_PROPS:-$(/venv/bin/python -c "import json; print(' '.join(c['property_id'] for c in json.load(open('MANIFEST.json'))['checks']))")}
+for id in $IDS; do
   VERIF_SEED=$SEED VERIF_OUT_DIR=$OUT /venv/bin/python check.py $id --tier $TIER > $OUT/$id.log 2>&1; rc=$?
   echo "rc=$rc $(grep -E "^$id tier" $OUT/$id.log | tail -1)"
   grep -E "^detail|^VIOLATION|HARNESS" $OUT/$id.log | cut -c1-400
